@@ -146,7 +146,7 @@ func gen(rt *rapid.T) plan {
 	p.AutoReconnect = rapid.IntRange(0, 3).Draw(rt, "auto") < 3
 	nOut := rapid.IntRange(1, 8).Draw(rt, "n_outcomes")
 	for i := 0; i < nOut; i++ {
-		p.Outcomes = append(p.Outcomes, rapid.SampledFrom([]string{"hang", "ok", "fail", "slow_ok", "ok", "fail", "slow_fail", "hang_ok", "fail", "hang"}).Draw(rt, "outcome"))
+		p.Outcomes = append(p.Outcomes, rapid.SampledFrom([]string{"fail", "ok", "hang", "ok", "fail", "slow_ok", "hang", "slow_fail", "hang_ok", "fail"}).Draw(rt, "outcome"))
 	}
 	p.FreeWatchers = rapid.SampledFrom([]int{0, 1, 2, 3, 8, 16}).Draw(rt, "free_watchers")
 	n := rapid.IntRange(3, vk.Pick(20, 120)).Draw(rt, "n_steps")
